@@ -35,6 +35,7 @@ CHECKS = {
                 "Tie: on every run the model the real code hands to CBC (captured through the MPSolver API at the first solve) is compared with "
                 "MajorInst.build of the same instance, _filter_alleles with filterAlleles, and an independent exhaustive oracle over all allele "
                 "multisets checks score, optimality, gap-completeness and uniqueness of the real return (C05's loop theorems carry the enumeration).",
+        "text_more": "Spec-level bridge (Props/C02Spec): specMajor I k is the documented score of calling k(a) copies of every candidate allele a (absolute observed-minus-called copies per core variant and reference row, a variant nobody carries being called once as novel, plus the novelty penalties) and never looks at the ILP; proved for EVERY instance: every admissible multiset is the decision of a feasible point whose objective is its documented score (major_decision_achievable), every feasible point that selects it scores at least that (major_spec_lower_bound), every feasible point selects an admissible multiset (major_decision_of_sat), hence the objective of any optimum of the model is the least documented score among the admissible multisets (major_optimal_score_is_least_documented) - 'the reported score is the documented one and no admissible combination scores lower' modulo the solver returning an optimum. Tie family major_spec_score: the score of every reported multiset equals specMajor decided by Lean. ",
         "design_ref": "DESIGN.md section 10.2-10.3 (as built), section 4 (C02), 3.2 (plan)",
         "note": "Optimality/completeness = C05's Run theorems (each solve returns a true optimum: CBC trusted, cross-checked by the exhaustive "
                 "oracle on generated instances) + the antichain theorem, under the hypothesis that every candidate allele's configuration is part "
@@ -50,7 +51,7 @@ CHECKS = {
                 "the estimate_cn decision table (user structure verbatim, unknown names rejected, two/one default copies). Ties on every run: captured "
                 "CBC model == CNInst.build, real return == foldCN(real yields), _filter_configs == filterConfigs, estimate_cn decisions == cnDecision; "
                 "plus an exhaustive spec-level oracle over all admissible internal assignments.",
-        "text_more": "The objective is non-negative at every feasible point for non-negative penalty parameters (cn_objective_nonneg), the hypothesis under which C05 stage_reports_optimum / the gap theorems apply to this stage. Through genotype(): the structure is estimated with a copy-number capable profile also after an exome run of the same gene in the same process. ",
+        "text_more": "Spec-level bridge (Props/C03Spec): specCN is the documented score of a selection of structure slots (weighted absolute gene-minus-pseudogene residuals + absolute gene-fit residuals + parsimony / fusion penalties), never looks at the error variables; proved for EVERY instance: every selection that satisfies the structural families and leaves every residual within cn_max is the selection of a feasible point whose objective is its documented score (cn_decision_achievable), every feasible point scores at least the documented score of its selection, which is admissible (cn_spec_lower_bound, cn_admissible_of_sat), hence the objective of any optimum is the least documented score among the admissible selections (cn_optimum_is_spec_min). Tie family cn_spec_score on every yielded selection. The objective is non-negative at every feasible point for non-negative penalty parameters (cn_objective_nonneg), the hypothesis under which C05 stage_reports_optimum / the gap theorems apply to this stage. Through genotype(): the structure is estimated with a copy-number capable profile also after an exome run of the same gene in the same process. ",
         "design_ref": "DESIGN.md section 10.2-10.3 (as built), section 4 (C03) (plan)",
         "note": "Global optimality and superset-completeness are C05's Run theorems applied to this model plus the exhaustive oracle; the exome/VCF "
                 "profile dispatch of genotype.py is covered by C19/C16 ties.",
@@ -267,7 +268,7 @@ CHECKS = {
                 "Ties on every solve_minor_model call of the real estimate_minor: captured CBC model == MinorInst.build; returned alleles == "
                 "readOut of the solver's binaries; returned score == reported objective; oracle with the property's clauses and exhaustive "
                 "optimality on small instances.",
-        "text_more": "Score (Props/C04Score): at every point the objective equals error helpers + minor_miss x dropped definition variants + minor_add x (1 + k/1e6) per set add selector + minor_add/2 x novel-core indicators + minor_phase x cnt x (agreeing selectors missed + disagreeing selectors hit) per phase cell (minor_score_closed_form), and at feasible points each summand is the indicator its name says (minor_dropped_term, minor_vnewor_exact, minor_phase_terms; the selectors of a phase cell are keep / add selectors of the cell's slot). Two genuine defects repaired by fix: commits (reference row at multi-allelic sites, candidate order). The clause 'every carried variant has supporting filtered reads' is decided on instances with a variant between the filter thresholds of the structure's copy count and of the copies its site really has. ",
+        "text_more": "Oracle: the clause 'the reported score equals the objective of the reported assignment' is recomputed from the report alone including the read-phase disagreement (every pattern attributed to the selected copy that contradicts it least); the exhaustive optimum includes the phase term and rule 6; directed class: two copies of one minor allele that differ crosswise (multi-allelic site, variants in trans) with the planted assignment as an admissible upper bound. Score (Props/C04Score): at every point the objective equals error helpers + minor_miss x dropped definition variants + minor_add x (1 + k/1e6) per set add selector + minor_add/2 x novel-core indicators + minor_phase x cnt x (agreeing selectors missed + disagreeing selectors hit) per phase cell (minor_score_closed_form), and at feasible points each summand is the indicator its name says (minor_dropped_term, minor_vnewor_exact, minor_phase_terms; the selectors of a phase cell are keep / add selectors of the cell's slot). Two genuine defects repaired by fix: commits (reference row at multi-allelic sites, candidate order). The clause 'every carried variant has supporting filtered reads' is decided on instances with a variant between the filter thresholds of the structure's copy count and of the copies its site really has. ",
         "design_ref": "DESIGN.md section 10.2-10.3 (as built), section 4 (C04), 3.2 (plan)",
         "note": "Optimality = C05 Run theorems + exhaustive oracle on small instances (tie-breaker epsilon <= minor_add*#selectors/1e6 allowed); "
                 "'one variant per site' after the homozygous post-processing is checked by the oracle on every real output (no violation seen), "
